@@ -446,8 +446,13 @@ class Interp:
     def e_Call(self, e, env):
         name = _dotted(e.func)
         if name in self.hooks:
-            args = [self.eval(a, env) for a in e.args]
-            kw = {k.arg: self.eval(k.value, env) for k in e.keywords if k.arg}
+            args = self._elts(e.args, env)
+            kw = {}
+            for k in e.keywords:
+                if k.arg is None:
+                    kw.update(self.eval(k.value, env))
+                else:
+                    kw[k.arg] = self.eval(k.value, env)
             return self.hooks[name](*args, **kw)
         f = self.eval(e.func, env)
         args = self._elts(e.args, env)
@@ -472,6 +477,12 @@ class Interp:
             sub.steps = self.steps
             names = [p.arg for p in fn.args.args]
             return sub.call_function(fn, {**dict(zip(names, args)), **kw})
+        if isinstance(f, Record):
+            fn = self.classes.get(f._cls, {}).get("__call__")
+            if fn is None:
+                raise Unsupported(f"record {f._cls} is not callable")
+            names = [p.arg for p in fn.args.posonlyargs + fn.args.args][1:]
+            return self.call_function(fn, {"self": f, **dict(zip(names, args)), **kw})
         if f is next:
             try:
                 return next(*args)
